@@ -635,7 +635,17 @@ def do_forward(w, d, op, p):
         x = last[1]  # the very tensor object the previous forward consumed
         w.probe("same_tensor_object_fed_to_two_models")
     else:
-        x = make_input(d, op["input"])
+        # the caller re-uses its batch objects: the same descriptor is the same tensor object for the same
+        # deployment shape/dtype (a library cache keyed on tensor identity then meets the identity again)
+        ck = (key, tuple(d.in_shape), d.dtype)
+        cache = w.__dict__.setdefault("input_cache", {})
+        x = cache.get(ck)
+        if x is None:
+            x = make_input(d, op["input"])
+            if len(cache) < 32:
+                cache[ck] = x
+        else:
+            w.probe("batch_object_reused")
     w.last_input = (key, x, (tuple(d.in_shape), d.dtype))
     depth0 = w.depth == 0
     c13 = w.focus("C13") and depth0
@@ -718,6 +728,7 @@ def do_forward(w, d, op, p):
                 w.violate("C13", "readonly_forward", "forward", {"who": "self" if i == d.id else "other", "completed": exc is None}, f"state of dep {i} changed by a forward of dep {d.id} outside any calibration context", p)
         if R.input_digest(x) != xdig:
             w.violate("C13", "readonly_forward", "forward", {"who": "input"}, "input tensor modified by forward", p)
+            w.__dict__.get("input_cache", {}).pop((key, tuple(d.in_shape), d.dtype), None)
     d.obs = []
     d.open = []
     if exc is not None:
